@@ -39,12 +39,18 @@ func init() {
 				}
 				jobs = append(jobs, Job{Pkg: "root", Func: n, Args: []int64{maxN}, Cfg: cfg(loop, 900), Reach: []string{"valid"}})
 			}
+			la := int64(24)
+			if tier == "thorough" {
+				la = 40
+			}
+			jobs = append(jobs, Job{Pkg: "root", Func: "VerifC01LLDPArgs", Args: []int64{la}, Cfg: cfg(300, 900), Reach: []string{"valid"}})
 			return jobs
 		},
 		Bounds: func(tier string) map[string]string {
 			b := map[string]string{
 				"Session.Parse":   "all byte strings of length 0..1536, all capacities length..1600, all contents; empty tables and one pre-existing tracked host; home LAN 192.168.0.0/24, symbolic host/router MAC",
 				"view types":      "all exported []byte view types with an IsValid method found in the current source; every exported zero-argument value-receiver method (String/FastLog/Set*/Append* excluded); view length 0..1536, capacity ..1600",
+				"LLDP accessors with arguments": "GetPDU(t) for every t in 0..127, Type(t), Capability(v) on LLDP views of length 0..24 (thorough 40)",
 				"loop unwinding":  "64 iterations per loop activation (300 for the looping view types); exceeding it is reported as inconclusive",
 			}
 			for k, v := range viewMaxN {
